@@ -26,6 +26,6 @@ func C13(c *vf.Check) {
 		render: func(p []any) string { return (&srcRenderer{md: coMode}).byFunc("B", p) }, rule: ""})
 	runFam(c, famSpec{id: "C13", fam: "optx", name: "F_optx", sizeQ: "2", sizeT: "3", tapeQ: "2", tapeT: "2", callsQ: 4, callsT: 5,
 		keys: fullKeys, opts: srcOpts{Opt: true}, failIsViolation: true, rule: ""})
-	runFam(c, famSpec{id: "C13", fam: "opt", name: "F_opt", sizeQ: "3", sizeT: "4", tapeQ: "2", tapeT: "3", callsQ: 5, callsT: 6,
+	runFam(c, famSpec{id: "C13", fam: "opt", name: "F_opt", sizeQ: "3", sizeT: "4", tapeQ: "2", tapeT: "2", callsQ: 5, callsT: 6,
 		keys: fullKeys, opts: srcOpts{Opt: true}, lazyT: true, failIsViolation: true, rule: ""})
 }
